@@ -599,8 +599,34 @@ def key_columns(table):
             "servicesbyhostgroup": ["host_name", "description", "hostgroup_name"]}.get(table, [])
 
 
+def gen_index_window_query(rng, schema, ds):
+    """the rows an index pre-selection hands over, cut by the per-backend early cut: services of one host (or one host
+    group) in the table's default order with a Limit below the number of its services"""
+    svcs = {}
+    for b in ds["backends"]:
+        t = b["tables"].get("services")
+        if t and "host_name" in t["cols"]:
+            i = t["cols"].index("host_name")
+            for r in t["rows"]:
+                svcs[r[i]] = svcs.get(r[i], 0) + 1
+    if not svcs:
+        return None
+    host = max(sorted(svcs), key=lambda h: svcs[h]) if rng.random() < 0.7 else rng.choice(sorted(svcs))
+    flt = rng.choice(["Filter: host_name = %s" % host, "Filter: host_name = %s" % host, "Filter: host_name ~ ^%s$" % host.replace(".", "\\."), "Filter: host_groups >= %s" % rng.choice(GROUP_NAMES)])
+    lines = ["GET services", "Columns: host_name description state" + (" peer_key" if rng.random() < 0.5 else ""), flt,
+             "Sort: host_name asc", "Sort: description asc", "Limit: %d" % rng.choice([1, 1, 2, 3])]
+    if rng.random() < 0.4:
+        lines.append("Offset: %d" % rng.choice([1, 2]))
+    lines.append("OutputFormat: " + rng.choice(["json", "wrapped_json"]))
+    return "\n".join(lines) + "\n\n"
+
+
 def gen_data_query(rng, schema, ds, opts=None):
     opts = opts or {}
+    if opts.get("index_window_p") and rng.random() < opts["index_window_p"]:
+        q = gen_index_window_query(rng, schema, ds)
+        if q:
+            return q
     table = rng.choice(opts.get("tables", QUERY_TABLES))
     cols = usable_columns(schema, ds, table)
     out_cols = key_columns(table) + pick_output_columns(rng, cols)
@@ -620,6 +646,19 @@ def gen_data_query(rng, schema, ds, opts=None):
 
 def gen_extra_headers(rng, schema, ds, table, cols, opts):
     lines = []
+    if opts.get("wait_p") and rng.random() < opts["wait_p"] and table in ("hosts", "services", "hostgroups", "servicegroups", "comments", "downtimes", "contacts"):
+        # Wait headers (the wait itself is a matter of milliseconds): they have to survive printing
+        lines.append("WaitTrigger: " + rng.choice(["all", "check", "state", "log", "downtime", "comment", "command", "program"]))
+        if rng.random() < 0.6:
+            obj = {"hosts": rng.choice(HOST_NAMES), "services": rng.choice(HOST_NAMES) + ";" + rng.choice(SVC_NAMES)}.get(table, rng.choice(["x", "1"]))
+            lines.append("WaitObject: " + obj)
+        for _ in range(rng.choice([0, 1, 1, 2])):
+            lines += ["WaitCondition: " + gen_leaf(rng, schema, ds, table, cols, opts)]
+        if sum(1 for l in lines if l.startswith("WaitCondition:")) == 2 and rng.random() < 0.7:
+            lines.append(rng.choice(["WaitConditionAnd: 2", "WaitConditionOr: 2"]))
+        if rng.random() < 0.2 and any(l.startswith("WaitCondition") for l in lines):
+            lines.append("WaitConditionNegate:")
+        lines.append("WaitTimeout: %d" % rng.choice([1, 5, 20]))
     if opts.get("sort") and rng.random() < opts["sort"]:
         nk = rng.choice([1, 1, 2, 3])
         sortable = [c for c in cols if c["dtype"] != "ServiceMemberListCol"]
